@@ -722,36 +722,45 @@ def run_merge_all(P):
 
 def _merge_all_inputs(ctx, P):
     """R06.5 (whole function): every padded input comes back, in order, re-chunked with the pattern computed from *its own*
-    unpadded chunks."""
-    inst = "merge for two inputs with different chunking"
-    try:
-        fi, dim, chunks, outs = run_merge_all(P)
-    except Unmodelled as e:
-        ctx.unknown("R06.5", inst, str(e))
-        return
-    bad = None
-    want = {"pa": (chunks["a"][0] + Lin.of(1), chunks["a"][1] + Lin.of(2)), "pb": (chunks["b"][0] + Lin.of(1), chunks["b"][1], chunks["b"][2] + Lin.of(2))}
-    for o in outs:
-        v = o.value
-        if o.kind != "return" or not isinstance(v, (list, tuple)) or [getattr(x, "name", None) for x in v] != ["pa", "pb"]:
-            bad = f"{o.kind} {v!r}; one re-chunked array per padded input, in order, is expected"
+    unpadded chunks - by the merge helper called on its own, and as apply_as_grid_ufunc calls it (the caller decides which
+    original belongs to which padded array)."""
+    direct = _takes(P, "grid_ufunc:_rechunk_to_merge_in_boundary_chunks", ("padded_args", "original_args", "boundary_width_real_axes", "grid"))
+    for inst, through in (("merge for two inputs with different chunking", False), ("merge for two inputs with different chunking, as apply_as_grid_ufunc performs it", True)):
+        if through and not direct:
+            continue  # run_merge_all already went through the public entry
+        try:
+            if through:
+                chunks = {"a": (Lin.sym("a0"), Lin.sym("a1")), "b": (Lin.sym("b0"), Lin.sym("b1"), Lin.sym("b2"))}
+                dim = dimsym("AX", "center")
+                fi, outs = merge_through_apply(P, chunks)
+            else:
+                fi, dim, chunks, outs = run_merge_all(P)
+        except Unmodelled as e:
+            ctx.unknown("R06.5", inst, str(e))
             continue
-        for x in v:
-            ch = [e for e in x.eff if e[0] == "chunk"]
-            pat = ch[0][1] if len(ch) == 1 else None
-            got = tuple(pat.get(dim, ())) if isinstance(pat, dict) else None
-            if got is None or len(got) != len(want[x.name]) or any(Lin.of(g) != Lin.of(w) for g, w in zip(got, want[x.name])):
-                bad = f"padded input {x.name} is re-chunked to {got!r} along the padded dimension; expected {want[x.name]!r} (from its own unpadded chunks)"
-            # the second padded axis (widths (0, 3)) is merged too: its last chunk takes the three new cells
-            dim_y = dimsym("AY", "center")
-            got_y = tuple(pat.get(dim_y, ())) if isinstance(pat, dict) else None
-            want_y = (Lin.sym("y0"), Lin.sym("y1") + Lin.of(3))
-            if got_y is None or len(got_y) != 2 or any(Lin.of(g) != Lin.of(w) for g, w in zip(got_y, want_y)):
-                bad = bad or f"padded input {x.name} is re-chunked to {got_y!r} along the second padded dimension; expected {want_y!r}: the boundary chunks of every padded axis must be merged"
-    if bad:
-        ctx.report("R06.5", fi, inst, bad)
-    else:
-        ctx.ok("R06.5", inst, "each input re-chunked with the pattern of its own chunks")
+        bad = None
+        want = {"pa": (chunks["a"][0] + Lin.of(1), chunks["a"][1] + Lin.of(2)), "pb": (chunks["b"][0] + Lin.of(1), chunks["b"][1], chunks["b"][2] + Lin.of(2))}
+        for o in outs:
+            v = o.value
+            if o.kind != "return" or not isinstance(v, (list, tuple)) or [getattr(x, "name", None) for x in v] != ["pa", "pb"]:
+                bad = f"{o.kind} {v!r}; one re-chunked array per padded input, in order, is expected"
+                continue
+            for x in v:
+                ch = [e for e in x.eff if e[0] == "chunk"]
+                pat = ch[0][1] if len(ch) == 1 else None
+                got = tuple(pat.get(dim, ())) if isinstance(pat, dict) else None
+                if got is None or len(got) != len(want[x.name]) or any(Lin.of(g) != Lin.of(w) for g, w in zip(got, want[x.name])):
+                    bad = f"padded input {x.name} is re-chunked to {got!r} along the padded dimension; expected {want[x.name]!r} (from its own unpadded chunks)"
+                # the second padded axis (widths (0, 3)) is merged too: its last chunk takes the three new cells
+                dim_y = dimsym("AY", "center")
+                got_y = tuple(pat.get(dim_y, ())) if isinstance(pat, dict) else None
+                want_y = (Lin.sym("y0"), Lin.sym("y1") + Lin.of(3))
+                if got_y is None or len(got_y) != 2 or any(Lin.of(g) != Lin.of(w) for g, w in zip(got_y, want_y)):
+                    bad = bad or f"padded input {x.name} is re-chunked to {got_y!r} along the second padded dimension; expected {want_y!r}: the boundary chunks of every padded axis must be merged"
+        if bad:
+            ctx.report("R06.5", fi, inst, bad)
+        else:
+            ctx.ok("R06.5", inst, "each input re-chunked with the pattern of its own chunks")
 
 
 def _callers_unpack(P, event):
@@ -786,7 +795,10 @@ def _vector_merge_through_apply(P):
     am[("DataArray", "variable")] = variable
     mm = dict(da_method_models())
     mm[("DataArray", "chunk")] = chunk
-    ev = Evaluator(P, models=apply_models(record_rechunk=False), attr_models=am, method_models=mm)
+    mm[("Variable", "chunk")] = chunk
+    models = apply_models(record_rechunk=False)
+    models["xarray.DataArray"] = lambda ev, args, kw, node: Obj("DataArray", "rewrapped", (("chunk", None),) if args and isinstance(args[0], Obj) and any(x[0] == "chunk" for x in args[0].eff) else (), {"dims": ()})
+    ev = Evaluator(P, models=models, attr_models=am, method_models=mm)
     fi = P.func("grid_ufunc:apply_as_grid_ufunc")
 
     def make():
